@@ -80,6 +80,12 @@ pub fn run(c: &Case) -> Verdict {
                 return fail("recompose", format!("{}::from_cofactors(cofactors(f,{}),{}) != f for f={}: {}", fl, i, i, c.f.short(), e));
             }
             // Shannon composition of two arbitrary functions
+            // the same object as both cofactors: the result is c0 made independent of x_i
+            let wanta = Tt::from_cofactors(&c.c0, &c.c0, i);
+            let ra = lib!("from_cofactors with the same object twice", l0.from_cofactors(l0.as_ref(), i));
+            if let Err(e) = same_fn(ra.as_ref(), &wanta) {
+                return fail("from_cofactors:alias", format!("{}::from_cofactors(c, c, {}) with the same object c={} as both cofactors: {}", fl, i, c.c0.short(), e));
+            }
             let wantc = Tt::from_cofactors(&c.c0, &c.c1, i);
             let rc = lib!("from_cofactors", l0.from_cofactors(l1.as_ref(), i));
             if let Err(e) = same_fn(rc.as_ref(), &wantc) {
@@ -155,7 +161,7 @@ fn enumerate(t: Tier, shard: usize, nshards: usize, f: &mut dyn FnMut(Case) -> b
 pub fn def() -> PropDef {
     PropDef {
         id: "C03",
-        rule: "cases = (family, f, c0, c1, index pairs) with n in 1..=12 (LutN) / 1..=14 (Lut), tables from the table generator (dense classes dominate), all (i,j) for n<=5 and regime-balanced drawn pairs (both<=5, j<=5<i, both>=6) above; for each index: flip/flip_inplace, cofactors (both), from_cofactors(cofactors(f)), from_cofactors(c0,c1) for arbitrary c0,c1; for each pair: swap/swap_inplace in the given argument order and swap_adjacent(_inplace) when j=i+1; every result compared with the definition on every assignment via value(). Non-trivial = f depends on the variable / the swap changes f; distinct by whole case. Exhaustive part: all f, all (i,j), n<=3 (quick) / n<=4 (thorough).",
+        rule: "cases = (family, f, c0, c1, index pairs) with n in 1..=12 (LutN) / 1..=14 (Lut), tables from the table generator (dense classes dominate), all (i,j) for n<=5 and regime-balanced drawn pairs (both<=5, j<=5<i, both>=6) above; for each index: flip/flip_inplace, cofactors (both), from_cofactors(cofactors(f)), from_cofactors(c0,c1) for arbitrary c0,c1 and from_cofactors(c0,c0) with one object passed twice; for each pair: swap/swap_inplace in the given argument order and swap_adjacent(_inplace) when j=i+1; every result compared with the definition on every assignment via value(). Non-trivial = f depends on the variable / the swap changes f; distinct by whole case. Exhaustive part: all f, all (i,j), n<=3 (quick) / n<=4 (thorough).",
         assumptions: vec!["value(), from_blocks()/set_bit() as observation/loading channel; stray bits are not inspected here (C02)"],
         subs: vec![Box::new(Sub {
             name: "transforms",
